@@ -6,11 +6,12 @@
 #include <cstring>
 #include <map>
 #include <memory>
-#include <omp.h>
 #include <sstream>
 #include <tuple>
 
+#ifdef _OPENMP
 extern "C" int omp_get_num_procs(void) { return 64; }
+#endif
 
 namespace vf {
 
@@ -41,7 +42,7 @@ struct StaticSubject {
             if (k > cap) k = cap;
         desc = name + " " + describe_keys(keys, meta);
         if (!execute) return nullptr;
-        omp_set_num_threads(meta.threads);
+        vf_set_threads(meta.threads);
         queries = gen_queries<K>(keys, meta, 4, false, false);
         if (queries.size() > 1500) queries.resize(1500);
         return std::unique_ptr<Obj>(new Obj(keys.begin(), keys.end()));
